@@ -179,20 +179,21 @@ func parseSig(b []byte) (uint32, bool, []byte, error) {
 
 // split bytecode into head and b using length-prefixed integer
 func intSplit(b []byte) (uint32, []byte, error) {
-	l := uint8(b[0])
+	if len(b) == 0 {
+		return 0, b, fmt.Errorf("argument is empty")
+	}
+	l := int(b[0])
+	if l > 4 {
+		return 0, b, fmt.Errorf("integer length %v exceeds 4 bytes", l)
+	}
+	if len(b) < 1+l {
+		return 0, b, fmt.Errorf("corrupt instruction, len %v less than integer length: %v", len(b), l)
+	}
 	sz := uint32(l)
 	b = b[1:]
 	if l > 0 {
 		r := []byte{0, 0, 0, 0}
-		c := 0
-		ll := 4 - l
-		var i uint8
-		for i = 0; i < 4; i++ {
-			if i >= ll {
-				r[i] = b[c]
-				c += 1
-			}
-		}
+		copy(r[4-l:], b[:l])
 		sz = binary.BigEndian.Uint32(r)
 		b = b[l:]
 	}
